@@ -9,7 +9,7 @@ from ..fa import fa_of
 from ..model import Program
 from ..rules import names
 from ..sym import Poly, Term, contains, leaves, negate, show, subterms, term_to_poly
-from .sampler_common import FILE, PassLoop, Roles, split_eq, yields_at
+from .sampler_common import FILE, GiveUp, PassLoop, Roles, formula_atoms, formula_eval, path_condition, split_eq, yields_at
 
 UNITS = {"every_n_epochs": "epoch", "every_n_updates": "update", "every_n_samples": "sample"}
 NONE = ("const", None)
@@ -94,124 +94,22 @@ def run(prog: Program, rep: Report, tier: str):
     P = R.passes[0]
 
     # ---- 1. decision ------------------------------------------------------------------------------------------
-    rep.rule("G8.decision-monotone", "the boolean that guards a config's pass starts False in every config iteration; a "
-             "later store that is not of monotone form (True, 'v or ...') is allowed only where the initial False is the "
-             "sole definition reaching it - so the verdict of one interval kind can never cancel another's")
-    rep.rule("G4.decision-units", "for each interval kind the decision consults config.every_n_<unit> only under "
-             "'config.every_n_<unit> is not None', tests the progress counter of the same unit (epoch / update / sample; "
-             "never another unit's counter) in the form 'counter % interval == 0' or, for samples, 'last // n < now // n', "
-             "and the every_n_epochs verdict additionally requires the epoch-end condition")
+    rep.rule("G4.decision-function", "the condition under which a config's pass runs - the disjunction, over all paths from the "
+             "start of a config iteration to the pass loop, of the branch conditions on the path, boolean locals replaced by "
+             "what the path stored in them - is, as a boolean function of its atomic tests, the specified one: OR over the "
+             "interval kinds of (config.every_n_<unit> is not None AND <unit test>), the unit tests being 'epoch-end AND "
+             "epoch % n == 0', 'update % n == 0' and 'sample % n == 0 OR last // n < now // n'.  Atomic tests that pair a "
+             "counter with another unit's interval, compare the remainder with a non-zero constant or swap the operands are "
+             "reported as such; a decision that depends on tests of unrecognised shape is not decided")
     guard = None
     for t_, lab in cfg.control_predicates(P.iter_node):
         if t_ in cfg_body and cfg.nodes[t_].kind == "test":
             guard = (t_, lab)
     rep.require(guard is not None, "anchor-missing: test guarding the pass inside the config loop")
-    gt = R.term_at(guard[0]) if guard[1] else negate(R.term_at(guard[0]))
-    V = gt[1] if gt[0] == "var" and "." not in gt[1] else None
-    if V is None:
-        rep.unk("G8.decision-monotone", fi, "guard-shape", f"pass guarded by {show(gt)}, not by a single boolean local",
-                line=R.line(guard[0]), clause="C05.1")
-    else:
-        defs = [(n, val) for n, val, st in R.defs_of(V)]
-        in_cfg = [(n, val) for n, val in defs if n in cfg_body]
-        body_entry = R.body_entry(CN)
-        inits = [n for n, val in in_cfg if val is not None and fa.sym.term(val, n) == ("const", False)]
-        first_verdicts = []
-        if not inits:
-            # no 'V = False' reset: the first store of every config iteration plays that role when nothing of this
-            # iteration can have set V before it (it then overwrites no verdict)
-            first_verdicts = [n for n, val in in_cfg if val is not None and not any(
-                m != n and R.same_iteration_path(CN, m, n) for m, _ in in_cfg)]
-            inits = first_verdicts
-        init_ok = bool(inits) and R.within_iteration(CN, body_entry, guard[0], set(inits)) and not [
-            n for n, val in defs if n not in cfg_body]
-        rep.decide(init_ok, "G8.decision-monotone", fi, "init-false",
-                   f"'{V}' is set to False at the start of every config iteration",
-                   f"'{V}' is not reset to False on every path at the start of a config iteration (a verdict can leak "
-                   f"from the previous config / update)", line=R.line(inits[0]) if inits else R.line(guard[0]),
-                   clause="C05.1")
-        rd = cfg.reaching()
-        seen_units = set()
-        for n, val in in_cfg:
-            if n in inits and n not in first_verdicts:
-                continue
-            construct = f"store:{' '.join(ast.unparse(cfg.nodes[n].ast).split())[:90]}"
-            if val is None:
-                rep.unk("G8.decision-monotone", fi, construct, "store of unrecognised form", line=R.line(n), clause="C05.1")
-                continue
-            t = fa.sym.term(val, n)
-            reach = set(rd.get(n, {}).get(V, ()))
-            parts_here = fa.cond_parts_at(n)
-            # 'if not V and ...: V = <verdict>' overwrites only a False V (V itself unchanged between the test and the store)
-            not_v = [(e, pol, c, tn) for e, pol, c, tn in parts_here if isinstance(e, ast.Name) and e.id == V and not pol
-                     and set(rd.get(tn, {}).get(V, ())) == reach]
-            monotone = t == ("const", True) or (t[0] == "or" and any(x[0] == "var" and x[1] == V for x in t[1])) or bool(
-                not_v)
-            sole_init = reach <= set(inits) - set(first_verdicts) or n in first_verdicts
-            rep.decide(monotone or sole_init, "G8.decision-monotone", fi, construct,
-                       "monotone store" if monotone else "overwrites only the initial False",
-                       f"'{V}' is overwritten by a fresh verdict although an earlier interval kind may already have set "
-                       f"it (definitions from lines {sorted(R.line(x) for x in reach - set(inits))} reach this store): "
-                       f"a config with several interval kinds loses passes", line=R.line(n), clause="C05.1")
-            # ---- unit consistency of this store ------------------------------------------------------------
-            conds = [x for e, pol, c, tn in parts_here if not (isinstance(e, ast.Name) and e.id == V)
-                     for x in (c[1] if c[0] == "and" else (c,))]
-            if t[0] == "and":
-                # V = (config.every_n_x is not None and <test>): the None-test is a conjunct of the stored verdict
-                conds += [x for x in t[1] if _is_not_none(x, lambda y: _cfg_attr(y, cfg_term) in UNITS)]
-                rest_ = tuple(x for x in t[1] if not _is_not_none(x, lambda y: _cfg_attr(y, cfg_term) in UNITS))
-                t = rest_[0] if len(rest_) == 1 else ("and", rest_)
-            unit_attr = None
-            for c in conds:
-                for ua in UNITS:
-                    if _is_not_none(c, lambda y, ua=ua: _cfg_attr(y, cfg_term) == ua):
-                        unit_attr = ua
-            if unit_attr is None:
-                rep.unk("G4.decision-units", fi, construct, "store not under a 'config.every_n_* is not None' test",
-                        line=R.line(n), clause="C05.1")
-                continue
-            seen_units.add(unit_attr)
-            unit = UNITS[unit_attr]
-            # the verdict expression: the stored value plus the branch conditions between the None-test and the store
-            verdict_terms = [t] + [c for c in conds if any(_cfg_attr(x, cfg_term) in UNITS for x in subterms(c))
-                                   and not _is_not_none(c, lambda y: _cfg_attr(y, cfg_term) in UNITS)]
-            used_attrs = {_cfg_attr(x, cfg_term) for vt in verdict_terms for x in subterms(vt)} & set(UNITS)
-            used_counters = {role for role, var in counters.items()
-                             for vt in verdict_terms for lf in leaves(vt) if lf[0] == "var" and lf[1] == var}
-            problems = []
-            if used_attrs - {unit_attr}:
-                problems.append(f"consults {', '.join(sorted(used_attrs - {unit_attr}))} under the {unit_attr} test")
-            if unit_attr not in used_attrs and t != ("const", True):
-                problems.append(f"does not consult config.{unit_attr}")
-            if used_counters - {unit}:
-                problems.append(f"tests the {', '.join(sorted(used_counters - {unit}))} counter against an interval in "
-                                f"{unit}s")
-            form = _interval_form(verdict_terms, cfg_term, unit_attr, counters[unit], R, S)
-            if form is False:
-                problems.append("the interval test is not 'counter % interval == 0' (remainder compared with a non-zero "
-                                "constant or the operands are swapped)")
-            if unit == "epoch":
-                # epoch verdict only at the epoch end: the in-epoch == epoch-length atom must be part of the verdict
-                eqs = [x for vt in verdict_terms for x in subterms(vt) if x and x[0] == "eq" and split_eq(x[1])]
-                upd_cond = R.term_at(T2) if T2lab else negate(R.term_at(T2))
-                epoch_end_atoms = [x for x in (upd_cond[1] if upd_cond[0] == "or" else [upd_cond]) if x[0] == "eq"
-                                   and not any(lf == ("self", "batch_size") or (lf[0] == "var" and lf[1] == "self.batch_size")
-                                               for lf in leaves(x))]
-                if epoch_end_atoms and not any(e in eqs for e in epoch_end_atoms):
-                    problems.append("the every_n_epochs verdict does not require the epoch-end condition: it fires after "
-                                    "every update of an epoch whose number is a multiple of the interval")
-            ok = (not problems) if form is not None or problems else None
-            rep.decide(ok, "G4.decision-units", fi, construct,
-                       f"{unit_attr}: tests the {unit} counter '{counters[unit]}' against config.{unit_attr}",
-                       "; ".join(problems) or "interval test of unrecognised shape", line=R.line(n), clause="C05.1")
-        for ua in UNITS:
-            if ua not in seen_units:
-                rep.bad("G4.decision-units", fi, f"unit:{ua}", f"config.{ua} is never consulted by the decision: configs "
-                        f"with that interval kind never run", line=R.line(guard[0]), clause="C05.1")
-        # the guard must stop the pass exactly when V is false
-        rep.decide(gt == ("var", V, gt[2]) and True, "G8.decision-monotone", fi, "guard-polarity",
-                   f"the pass runs iff '{V}' is true", f"the pass is guarded by {show(gt)}", line=R.line(guard[0]),
-                   clause="C05.1", nontrivial=False)
+    upd_cond = R.term_at(T2) if T2lab else negate(R.term_at(T2))
+    end_atoms = [x for x in (upd_cond[1] if upd_cond[0] == "or" else [upd_cond]) if x[0] == "eq"
+                 and not any(lf == ("self", "batch_size") or (lf[0] == "var" and lf[1] == "self.batch_size") for lf in leaves(x))]
+    _decision_function(rep, R, P, cfg_term, counters, end_atoms, guard)
 
     # ---- 2. position --------------------------------------------------------------------------------------------
     rep.rule("G8.pass-position", "the config loop lies inside the update block (only after an update), after the update / "
@@ -287,6 +185,160 @@ def run(prog: Program, rep: Report, tier: str):
     # ---- 5. collator dispatch / concat getitem ---------------------------------------------------------------------------
     _check_dispatch(prog, rep)
     names.check(prog, rep, [FILE], clause="C05.G1", floor=10)
+
+
+def _decision_function(rep: Report, R: Roles, P: PassLoop, cfg_term: Term, counters, end_atoms, guard):
+    fa, cfg, fi = R.fa, R.fa.cfg, R.fi
+    CN = R.cfg_next
+    body = R.loop_body_nodes(CN)
+    snaps = set(R.snapshots_of(counters["sample"]))
+    try:
+        D, n_paths = path_condition(fa, R.body_entry(CN), {P.iter_node}, body, barrier={CN})
+    except GiveUp as e:
+        rep.unk("G4.decision-function", fi, "decision", f"not decided: {e}", line=R.line(guard[0]), clause="C05.1")
+        return
+    paths = [None] * n_paths
+    # ---- atoms ----------------------------------------------------------------------------------------------------------
+    atoms: List[Term] = formula_atoms(D)
+
+    def classify(t: Term):
+        """-> (role, unit attr or None, problem or None); roles: none / mod / cross / end / other"""
+        if t[0] == "is":
+            a, b2 = t[1]
+            for x, y in ((a, b2), (b2, a)):
+                if x == NONE and _cfg_attr(y, cfg_term) in UNITS:
+                    return "none", _cfg_attr(y, cfg_term), None
+        if t in end_atoms:
+            return "end", None, None
+        used_attrs = {_cfg_attr(x, cfg_term) for x in subterms(t)} & set(UNITS)
+        used_ctr = {role for role, var in counters.items() for lf in leaves(t) if lf[0] == "var" and lf[1] == var}
+        if not used_attrs:
+            return "other", None, None
+        if len(used_attrs) > 1:
+            return "other", None, f"mixes {', '.join(sorted(used_attrs))} in one test"
+        ua = next(iter(used_attrs))
+        unit = UNITS[ua]
+        attr = ("attr", cfg_term, ua)
+        if used_ctr - {unit}:
+            return "other", ua, f"tests the {', '.join(sorted(used_ctr - {unit}))} counter against config.{ua} (an interval in {unit}s)"
+        if t[0] == "eq":
+            pl = term_to_poly(t[1])
+            mods = [x for x in pl.atoms() if x[0] == "binop" and x[1] == "%" and contains(x, attr)]
+            if len(mods) == 1:
+                m = mods[0]
+                shape = m[2][0] == "var" and m[2][1] == counters[unit] and m[3] == attr
+                zero = len(pl.terms) == 1 and pl.coeff_of(m).const_value() in (1, -1)
+                if shape and zero:
+                    return "mod", ua, None
+                return "other", ua, (f"the {ua} test is not '{unit} counter % config.{ua} == 0' (remainder compared with a non-zero "
+                                     f"constant, or operands swapped)")
+        if t[0] == "lt" and unit == "sample":
+            pl = term_to_poly(t[1])
+            divs = [x for x in pl.atoms() if x[0] == "binop" and x[1] == "//" and x[3] == attr]
+            if len(divs) == 2 and len(pl.terms) == 2:
+                now = [d for d in divs if d[2][0] == "var" and d[2][1] == counters[unit]]
+                last = [d for d in divs if d not in now]
+                if len(now) == 1 and len(last) == 1 and pl.coeff_of(now[0]).const_value() == -1 and \
+                        pl.coeff_of(last[0]).const_value() == 1 and last[0][2][0] == "var" and last[0][2][1] in snaps:
+                    return "cross", ua, None
+                return "other", ua, "the boundary-crossing test is not 'last // n < now // n' with the sample counter at the last update"
+        return "other", ua, None
+
+    roles = {}
+    for t in atoms:
+        roles[t] = classify(t)
+
+    ev = formula_eval
+
+    if len(atoms) > 14:
+        rep.unk("G4.decision-function", fi, "decision", f"the decision tests {len(atoms)} different atomic conditions: not decided",
+                line=R.line(guard[0]), clause="C05.1")
+        return
+    import itertools
+    # which atoms does D depend on?
+    rows = list(itertools.product((False, True), repeat=len(atoms)))
+    table = {}
+    for row in rows:
+        table[row] = ev(D, dict(zip(atoms, row)))
+    depends = []
+    for i, t in enumerate(atoms):
+        if any(table[row] != table[row[:i] + (not row[i],) + row[i + 1:]] for row in rows):
+            depends.append(t)
+    problems = [f"{pb} [{show(t)[:70]}]" for t in depends for (_r, _u, pb) in [roles[t]] if pb]
+    unknown = [t for t in depends if roles[t][0] == "other" and not roles[t][2]]
+    if problems:
+        rep.bad("G4.decision-function", fi, "decision", "; ".join(sorted(set(problems))[:3]), line=R.line(guard[0]), clause="C05.1")
+        return
+    if unknown:
+        rep.unk("G4.decision-function", fi, "decision", "the decision depends on test(s) of unrecognised shape: " + "; ".join(
+            show(t)[:60] for t in unknown[:3]), line=R.line(guard[0]), clause="C05.1")
+        return
+    by_role = {}
+    for t in depends:
+        r, ua, _ = roles[t]
+        by_role.setdefault((r, ua), []).append(t)
+    dup = {k: v for k, v in by_role.items() if len(v) > 1}
+    if dup:
+        rep.unk("G4.decision-function", fi, "decision", "several different tests play the same role (" + ", ".join(
+            f"{k[0]}:{k[1]}" for k in dup) + "): not decided", line=R.line(guard[0]), clause="C05.1")
+        return
+
+    def spec(val) -> bool:
+        def g(role, ua, default=False):
+            ts = by_role.get((role, ua))
+            return val[ts[0]] if ts else default
+        out = False
+        for ua, unit in UNITS.items():
+            if g("none", ua, True):
+                continue  # interval not configured
+            if unit == "epoch":
+                out = out or (g("end", None) and g("mod", ua))
+            elif unit == "update":
+                out = out or g("mod", ua)
+            else:
+                out = out or g("mod", ua) or g("cross", ua)
+        return out
+    missing = [ua for ua in UNITS if ("none", ua) not in by_role]
+    if missing:
+        rep.bad("G4.decision-function", fi, "decision", f"the decision does not depend on whether config.{missing[0]} is set: configs "
+                f"with that interval kind never run (or run regardless of it)", line=R.line(guard[0]), clause="C05.1")
+        return
+    if ("end", None) not in by_role:
+        rep.bad("G4.decision-function", fi, "decision", "the decision does not depend on the epoch-end condition: the every_n_epochs "
+                "verdict fires after every update of an epoch whose number is a multiple of the interval", line=R.line(guard[0]),
+                clause="C05.1")
+        return
+    witness = None
+    for row in rows:
+        val = dict(zip(atoms, row))
+        if table[row] != spec(val):
+            # prefer witnesses that set as few atoms as possible
+            if witness is None or sum(row) < sum(witness[0]):
+                witness = (row, table[row], spec(val))
+
+    def words(row):
+        out = []
+        val = dict(zip(atoms, row))
+        for ua, unit in UNITS.items():
+            isnone = val[by_role[("none", ua)][0]]
+            if isnone:
+                continue
+            bits = []
+            if unit == "epoch":
+                bits.append("at an epoch end" if val[by_role[("end", None)][0]] else "not at an epoch end")
+            for role, text in (("mod", f"{unit} % n == 0"), ("cross", "boundary crossed")):
+                ts = by_role.get((role, ua))
+                if ts:
+                    bits.append(text if val[ts[0]] else f"not {text}")
+            out.append(f"{ua} set ({', '.join(bits)})")
+        return "; ".join(out) or "no interval set"
+    if witness is None:
+        rep.ok("G4.decision-function", fi, "decision", f"the pass condition over {len(depends)} atomic tests ({len(paths)} paths) equals "
+               f"the specified decision on all {len(rows)} valuations", line=R.line(guard[0]), clause="C05.1")
+    else:
+        row, got, want = witness
+        rep.bad("G4.decision-function", fi, "decision", f"with {words(row)} the pass {'must run' if want else 'must not run'} but the "
+                f"code {'runs it' if got else 'skips it'}", line=R.line(guard[0]), clause="C05.1")
 
 
 def _guarded_inc(R, n):
@@ -567,9 +619,17 @@ def _check_tables(prog: Program, rep: Report):
     t0 = fa.sym.term(v0, n0) if v0 is not None else None
     lens = lambda x: x[0] == "call" and x[1] == ("global", "len") and len(x[2]) == 1
     ok0 = None
+    def is_sampler_like(t):
+        return t in main_terms or (t[0] == "attr" and t[2] == "sampler") or t == ("param", "main_sampler")
+
     if t0 is not None and t0[0] == "list" and len(t0[1]) == 1 and lens(t0[1][0]):
         inner = t0[1][0][2][0]
-        ok0 = is_main_ds(inner) and (ds_head is None or _getter(inner) == _getter(ds_head))
+        if is_main_ds(inner):
+            ok0 = ds_head is None or _getter(inner) == _getter(ds_head)
+        elif _ds_term(inner) is not None and is_sampler_like(_ds_term(inner)[1]) or is_sampler_like(inner):
+            ok0 = False  # the data source of another sampler, or the length of a sampler instead of its data source
+        else:
+            ok0 = None   # e.g. the first part of the concat dataset built before: not traced back here
     elif t0 is not None and _is_cumsizes_slice(t0):
         ok0 = None
     elif t0 is not None and t0[0] == "binop" and t0[1] == "+":
@@ -614,7 +674,29 @@ def _check_tables(prog: Program, rep: Report):
             recv_t = fa.sym.term(c.func.value, n)
             prev = [a for a in p.atoms() if a[0] == "sub" and a[2] == ("const", -1) and a[1] == recv_t]
             ln = [a for a in p.atoms() if lens(a)]
-            if it_ok and lv and len(prev) == 1 and len(ln) == 1 and len(p.terms) == 2 and \
+            running = None
+            if isinstance(c.args[0], ast.Name):
+                # a running total: 'acc += len(X)' once per iteration before the append, acc appended as it is
+                acc = c.args[0].id
+                body_nodes = cfg.nodes_inside(loop.body)
+                incs = [(m_, cfg.nodes[m_].ast) for m_, var, val in fa.stores() if var == acc and m_ in body_nodes]
+                if len(incs) == 1 and isinstance(incs[0][1], ast.AugAssign) and isinstance(incs[0][1].op, ast.Add) and \
+                        cfg.reachable(incs[0][0], n, avoid={loopn}):
+                    tv = fa.sym.term(incs[0][1].value, incs[0][0])
+                    if lens(tv):
+                        running = tv[2][0]
+            if it_ok and lv and running is not None:
+                inner = running
+                d_inner = _ds_term(inner)
+                if d_inner == ("ds", ("attr", lv, "sampler")) and (ds_elem is None or _getter(inner) == _getter(ds_elem)):
+                    ok, why = True, "running total: offset += len(DS(config.sampler)) over self.configs in order"
+                elif inner == ("attr", lv, "sampler") or (d_inner is not None and d_inner != ("ds", ("attr", lv, "sampler"))
+                                                          and is_sampler_like(d_inner[1])):
+                    ok = False
+                    why = (f"the offset step adds len({show(inner)}), which is not the length of the data source that the concat "
+                           f"dataset holds for that config (DS(config.sampler)): offsets and concat ranges drift apart whenever a "
+                           f"sampler's length differs from its dataset's")
+            elif it_ok and lv and len(prev) == 1 and len(ln) == 1 and len(p.terms) == 2 and \
                     p.coeff_of(prev[0]).const_value() == 1 and p.coeff_of(ln[0]).const_value() == 1:
                 inner = ln[0][2][0]
                 good = _ds_term(inner) == ("ds", ("attr", lv, "sampler")) and (
